@@ -939,7 +939,7 @@ var FieldWriteSet = `
 		{{- if Features.WithFieldMask}}
 		if !{{.FieldMask}}.All() {
 			l := len({{.Target}})
-			for i:=0; i < l; i++ {
+			for i, n := 0, l; i < n; i++ { // n: the loop must not shrink its own bound
 				if _, ex := {{.FieldMask}}.Int(i); !ex {
 					l--
 				}
@@ -1013,7 +1013,7 @@ var FieldWriteList = `
 	{{- if Features.WithFieldMask}}
 	if !{{.FieldMask}}.All() {
 		l := len({{.Target}})
-		for i:=0; i < l; i++ {
+		for i, n := 0, l; i < n; i++ { // n: the loop must not shrink its own bound
 			if _, ex := {{.FieldMask}}.Int(i); !ex {
 				l--
 			}
